@@ -1,4 +1,6 @@
 """C25 -- host state changes keep a single reconnector and notify listeners once."""
+import os
+
 from hypothesis import strategies as st
 
 from checks import _simclu as S
@@ -9,6 +11,7 @@ PID = "C25"
 TITLE = "Host state changes keep a single reconnector and notify listeners once"
 LEVEL = "exploration"
 ENGINE = "sim"
+SERIAL = os.environ.get("VERIF_TIER") == "quick"   # heavily loaded machine: a forked pool is slower than one process
 TECHNIQUE = ("model-based generation of event histories (Hypothesis) over the real Cluster/ControlConnection/Session/pools/"
              "scheduler/reconnection handlers on a deterministic simulated network and virtual clock; history invariants as oracle")
 RULE = ("A case is 2-3 fake nodes (optionally one IGNORED by the load-balancing policy), 1-2 sessions, "
